@@ -25,11 +25,12 @@ void run_sorter(const SorterSpec &s, RunResult &res, SorterOutcome &out)
 {
 	auto yield = [&]() { if (s.yield_between) sim_yield(); };
 	MergeCtx mc;
+	mc.mfunc = s.mfunc % MF_N;
 	mc.fail_at = s.mergefail;
 	mtbl_sorter_options *so = mtbl_sorter_options_init();
 	if (s.max_mem) mtbl_sorter_options_set_max_memory(so, s.max_mem);
 	mtbl_sorter_options_set_temp_dir(so, s.tmpdir.c_str());
-	mtbl_sorter_options_set_merge_func(so, merge_union_cb, s.stateless_merge ? nullptr : &mc);
+	mtbl_sorter_options_set_merge_func(so, merge_union_cb, s.stateless_merge ? stateless_merge_ctx(s.mfunc) : (void *)&mc);
 	if (s.pool) mtbl_sorter_options_set_threadpool(so, s.pool);
 	mtbl_sorter *sorter = mtbl_sorter_init(so);
 	mtbl_sorter_options_destroy(&so);
@@ -51,7 +52,7 @@ void run_sorter(const SorterSpec &s, RunResult &res, SorterOutcome &out)
 			break;
 		}
 		auto f = model.find(kv.first);
-		if (f == model.end()) model[kv.first] = kv.second; else f->second = union_values(f->second, kv.second);
+		if (f == model.end()) model[kv.first] = kv.second; else f->second = fold_values(s.mfunc % MF_N, f->second, kv.second);
 		buffered += kv.first.size() + kv.second.size(); nbuf++;
 		if (buffered >= limit) { out.limit_crossings++; buffered = 0; nbuf = 0; }
 		if (s.check_spill) {
